@@ -34,7 +34,8 @@ func main() {
 		"{int,bigint,text,varint,boolean,uuid,timestamp} at depth 2) x protocol version (1-5; tuple/UDT 3-5; depth 2: 2,3 quick / all thorough) " +
 		"x every Go source type of the Marshal doc table (plus named types, *T, **T, typed/untyped nil, all container shapes) x a boundary-value " +
 		"alphabet per Go type x every target type: the source's own type and every type of the Unmarshal doc table for the CQL type " +
-		"(containers: element targets varied one at a time). A case is (type, version, source Go type, value, target type); " +
+		"(containers: element targets varied one at a time; for every UDT, at the top and nested in list/set/map/UDT, additionally every struct " +
+		"that omits a non-empty proper subset of the UDT's fields - each position and combination - as target and as source). A case is (type, version, source Go type, value, target type); " +
 		"non-trivial = Marshal returned bytes and the target is able to represent the value.")
 	r.Assume("interpretations of NOTES.md: unsigned Go integers on fixed-width columns denote the w-bit pattern (signed targets read it as two's complement, "+
 		"unsigned as zero-extended); varint/decimal compare mathematically; date compares on the UTC day, timestamp on the millisecond; nulls read into "+
@@ -253,8 +254,13 @@ func rtKey(t *value.Type, src GoVal, gt reflect.Type, res rtResult) string {
 		}
 		return fmt.Sprintf("roundtrip:%s->%s%s:%s", t.ID, typeLeafName(t, gt), vc, class)
 	}
+	if structOmitsField(t, gt) && class != "not-deep-equal" {
+		// blamed on a UDT that goes into a struct lacking some of its fields while every kept field makes the trip on
+		// its own: the fields the struct does not have were not skipped properly (one key wherever it is nested)
+		return fmt.Sprintf("roundtrip:udt->struct:omitted-field:%s", class)
+	}
 	vc := valueClass(t, src.RV)
-	if vc == ":with-null-elem" && class != "not-deep-equal" && class != "silent-loss" {
+	if vc ==":with-null-elem" && class != "not-deep-equal" && class != "silent-loss" {
 		// a container that loses a null component shows it in several ways (the null reads back as a zero value,
 		// as an invalid value, or the bytes cannot be read back at all): one finding
 		class = "null-elem-lost"
@@ -267,6 +273,7 @@ func runCase(r *report.Run, tc TypeCase, thorough bool, cnt *counters) {
 	defer func() { cnt.merge(local) }()
 	g := newGen(thorough)
 	groups := g.groups(tc.T, top)
+	omitMemo := map[reflect.Type]bool{}
 	t := tc.T
 	ts := t.String()
 	sampled := false
@@ -313,12 +320,24 @@ func runCase(r *report.Run, tc TypeCase, thorough bool, cnt *counters) {
 					targets = append(targets, gr.GT)
 				}
 				if inDomain {
-					others := targetsFor(t, a, tc.Depth == 0)
+					all := targetsFor(t, a, tc.Depth == 0)
+					others := all
 					if tc.Depth > 0 {
 						if d := defaultGoType(t); d != nil {
 							others = append([]reflect.Type{d}, others...)
 						}
 						others = firstTypes(others, 5)
+						// on top of the five: every target in which a UDT goes into a struct that lacks some of its
+						// fields (each non-empty proper subset of the fields omitted; also nested in list/set/map/UDT)
+						have := map[reflect.Type]bool{}
+						for _, gt := range others {
+							have[gt] = true
+						}
+						for _, gt := range all {
+							if !have[gt] && omitsUDTField(t, gt) {
+								others = append(others, gt)
+							}
+						}
 					}
 					for _, gt := range others {
 						if gt != gr.GT && gt != tUdtU && !(t.ID == value.Varint && !sameBase(gt, gr.GT) && baseType(gt) != tBig) {
@@ -330,6 +349,12 @@ func runCase(r *report.Run, tc TypeCase, thorough bool, cnt *counters) {
 				for ti2, gt := range targets {
 					same := ti2 == 0 && gr.GT != nil
 					local[fmt.Sprintf("roundtrip_cases_v%d", proto)]++
+					if omitCached(omitMemo, t, gt) {
+						local[fmt.Sprintf("roundtrips_into_struct_omitting_udt_fields_depth%d", tc.Depth)]++
+						if same {
+							local["roundtrips_into_struct_omitting_udt_fields_own_type"]++
+						}
+					}
 					if !inDomain {
 						// accepted although outside the column's domain: tolerable iff it at least comes back unchanged
 						holder := reflect.New(gt)
